@@ -264,7 +264,12 @@ def render(fns):
             w(f"fn io_{i}(k: &String, v: &{rty}) -> bool {{ rt::log_check({i}, k, format!(\"{{:?}}\", v)) }}")
         # async bodies suspend at 1-3 await points (a gate future that is ready unless the harness holds it shut)
         gates = " ".join(["rt::gate().await;"] * (1 + (i // 3) % 3)) if f["is_async"] else ""
-        body = f"{{ rt::ran({i}); {gates} rt::{mk}() }}"
+        # every third function produces its result through an EARLY `return` (guard-clause style): the generated wrapper must still
+        # see the value, consult cache_if and store it (the macros run the body in a closure / async block for exactly this reason)
+        if i % 3 == 1:
+            body = f"{{ rt::ran({i}); {gates} if rt::yes() {{ return rt::{mk}(); }} unreachable!() }}"
+        else:
+            body = f"{{ rt::ran({i}); {gates} rt::{mk}() }}"
         if recv:
             w(f"#[derive(Debug, Clone)] pub struct R{i} {{ pub id: u32 }}")
             w(f"impl cachelito_core::DefaultCacheableKey for R{i} {{}}")
